@@ -17,7 +17,9 @@ theorem newTypecast_shape (t : TyId) (inner c : Node) (h : ctx.newTypecast t inn
     · cases h; exact ⟨_, rfl⟩
     · split at h
       · cases h; exact ⟨_, rfl⟩
-      · split at h <;> (cases h; exact ⟨_, rfl⟩)
+      · split at h
+        · cases h; exact ⟨_, rfl⟩
+        · split at h <;> (cases h; exact ⟨_, rfl⟩)
   · cases h; exact ⟨_, rfl⟩
   · cases h
 
@@ -141,20 +143,66 @@ inductive FromCand (rec : Node → Node → Outcome (List Stmt)) (lhs cand : Nod
   | slice {s} : ctx.env.isSliceType (lhs.exprType ctx.env) = true → ctx.env.isSliceType (cand.exprType ctx.env) = true →
       ctx.sliceToSlice lhs cand = .ok (some s) → FromCand rec lhs cand s
   | direct {n w w'} : ctx.castNode (lhs.exprType ctx.env) cand = .ok (some n, w) →
+      ctx.memberwise lhs cand = .ok false →
       FromCand rec lhs cand (.simple lhs (.node n) n.returnsError w')
-  | nested {i nc body w w'} : ctx.castNode (lhs.exprType ctx.env) cand = .ok (none, w) →
+  | nested {i nc body c? w w'} : ctx.castNode (lhs.exprType ctx.env) cand = .ok (c?, w) →
+      (c? = none ∨ ctx.memberwise lhs cand = .ok true) →
       ctx.env.isStructType (lhs.exprType ctx.env) = true → ctx.env.isStructType (cand.exprType ctx.env) = true →
       rec lhs cand = .ok body → body ≠ [] → FromCand rec lhs cand (.nest lhs cand i nc body w')
 
+theorem castOrNest_some (rec : Node → Node → Outcome (List Stmt)) (lhs cand : Node) (warns w' : List String) (mw : Bool)
+    (s : Stmt) (hmw : ctx.memberwise lhs cand = .ok mw)
+    (h : ctx.castOrNest rec lhs cand warns mw = .ok (some s, w')) : FromCand ctx rec lhs cand s := by
+  unfold BCtx.castOrNest at h
+  simp only at h
+  cases hc : ctx.castNode (lhs.exprType ctx.env) cand with
+  | error e => simp only [hc] at h; cases h
+  | panic p => simp only [hc] at h; cases h
+  | ok r =>
+    obtain ⟨c?, w⟩ := r
+    simp only [hc] at h
+    cases hm : (if mw = true then none else c?) with
+    | some c =>
+      simp only [hm] at h
+      cases h
+      cases mw with
+      | true => simp at hm
+      | false =>
+        simp only [Bool.false_eq_true, ↓reduceIte] at hm
+        subst hm
+        exact FromCand.direct hc hmw
+    | none =>
+      simp only [hm] at h
+      split at h
+      · rename_i hst
+        simp only [Bool.and_eq_true] at hst
+        cases hr : rec lhs cand with
+        | error e => simp only [hr] at h; cases h
+        | panic p => simp only [hr] at h; cases h
+        | ok body =>
+          simp only [hr] at h
+          split at h
+          · cases h
+          · rename_i hne
+            cases h
+            refine FromCand.nested hc ?_ hst.1 hst.2 hr (by simpa using hne)
+            cases mw with
+            | true => exact Or.inr hmw
+            | false =>
+              simp only [Bool.false_eq_true, ↓reduceIte] at hm
+              exact Or.inl hm
+      · cases h
+
 /-- **soundness of one candidate**: a statement comes only from an accessible candidate of the same
 name (under the case rule), and it is a slice copy, the candidate after `castNode` (so: assignable,
-or an opted-in conversion — `castNode_cases`), or a member-by-member block of two struct types -/
+or an opted-in conversion — `castNode_cases`) when no notation names a member beneath the
+destination, or a member-by-member block of two struct types -/
 theorem tryCand_some (rec : Node → Node → Outcome (List Stmt)) (lhs rhsStruct cand : Node) (warns w' : List String)
     (s : Stmt) (h : ctx.tryCand rec lhs rhsStruct warns cand = .ok (some s, w')) :
     ctx.accessible rhsStruct cand.objName = true ∧ ctx.opts.compareFieldName lhs.objName cand.objName = true ∧
       FromCand ctx rec lhs cand s := by
   unfold BCtx.tryCand at h
-  simp only [bind, Outcome.bind, pure] at h
+  simp only at h
   split at h
   · cases h
   · rename_i hacc
@@ -180,48 +228,28 @@ theorem tryCand_some (rec : Node → Node → Outcome (List Stmt)) (lhs rhsStruc
         · cases hsl
       | none =>
         simp only at h
-        cases hc : ctx.castNode (lhs.exprType ctx.env) cand with
-        | error e => simp only [hc] at h; cases h
-        | panic p => simp only [hc] at h; cases h
-        | ok r =>
-          obtain ⟨c?, w⟩ := r
-          simp only [hc] at h
-          cases c? with
-          | some c =>
-            simp only at h
-            cases h
-            exact FromCand.direct hc
-          | none =>
-            simp only at h
-            split at h
-            · rename_i hst
-              simp only [Bool.and_eq_true] at hst
-              cases hr : rec lhs cand with
-              | error e => simp only [hr] at h; cases h
-              | panic p => simp only [hr] at h; cases h
-              | ok body =>
-                simp only [hr] at h
-                split at h
-                · cases h
-                · rename_i hne
-                  cases h
-                  exact FromCand.nested hc hst.1 hst.2 hr (by simpa using hne)
-            · cases h
+        cases hmw : ctx.memberwise lhs cand with
+        | error e => simp only [hmw] at h; cases h
+        | panic p => simp only [hmw] at h; cases h
+        | ok mw =>
+          simp only [hmw] at h
+          exact castOrNest_some ctx rec lhs cand warns w' mw s hmw h
 
 /-- **completeness of one candidate**: an accessible candidate of the same name yields nothing only
-when no slice copy applies, `castNode` refuses it (`castNode_none`), and it is not a pair of struct
-types with something to copy member by member -/
+when no slice copy applies, and either `castNode` refuses it (`castNode_none`) or a notation names a
+member beneath the destination, and it is not a pair of struct types with something to copy member
+by member -/
 theorem tryCand_none (rec : Node → Node → Outcome (List Stmt)) (lhs rhsStruct cand : Node) (warns w' : List String)
     (hacc : ctx.accessible rhsStruct cand.objName = true)
     (hname : ctx.opts.compareFieldName lhs.objName cand.objName = true)
     (h : ctx.tryCand rec lhs rhsStruct warns cand = .ok (none, w')) :
-    (∃ w, ctx.castNode (lhs.exprType ctx.env) cand = .ok (none, w)) ∧
+    ((∃ w, ctx.castNode (lhs.exprType ctx.env) cand = .ok (none, w)) ∨ ctx.memberwise lhs cand = .ok true) ∧
     ((ctx.env.isSliceType (lhs.exprType ctx.env) && ctx.env.isSliceType (cand.exprType ctx.env)) = true →
         ctx.sliceToSlice lhs cand = .ok none) ∧
     ((ctx.env.isStructType (lhs.exprType ctx.env) && ctx.env.isStructType (cand.exprType ctx.env)) = true →
         rec lhs cand = .ok []) := by
   unfold BCtx.tryCand at h
-  simp only [bind, Outcome.bind, pure, hacc, hname, Bool.not_true, Bool.or_self, Bool.false_eq_true, ↓reduceIte] at h
+  simp only [hacc, hname, Bool.not_true, Bool.or_self, Bool.false_eq_true, ↓reduceIte] at h
   cases hsl : (if ctx.env.isSliceType (lhs.exprType ctx.env) && ctx.env.isSliceType (cand.exprType ctx.env)
       then ctx.sliceToSlice lhs cand else Outcome.ok none) with
   | error e => simp only [hsl] at h; cases h
@@ -235,29 +263,42 @@ theorem tryCand_none (rec : Node → Node → Outcome (List Stmt)) (lhs rhsStruc
       have hslice : (ctx.env.isSliceType (lhs.exprType ctx.env) && ctx.env.isSliceType (cand.exprType ctx.env)) = true →
           ctx.sliceToSlice lhs cand = .ok none := by
         intro hb; simpa [hb] using hsl
-      cases hc : ctx.castNode (lhs.exprType ctx.env) cand with
-      | error e => simp only [hc] at h; cases h
-      | panic p => simp only [hc] at h; cases h
-      | ok r =>
-        obtain ⟨c?, w⟩ := r
-        simp only [hc] at h
-        cases c? with
-        | some c => simp only at h; cases h
-        | none =>
-          simp only at h
-          refine ⟨⟨w, rfl⟩, hslice, ?_⟩
-          intro hst
-          simp only [hst, ↓reduceIte] at h
-          cases hr : rec lhs cand with
-          | error e => simp only [hr] at h; cases h
-          | panic p => simp only [hr] at h; cases h
-          | ok body =>
-            simp only [hr] at h
-            split at h
-            · rename_i hemp
-              have : body = [] := by simpa using hemp
-              rw [this]
-            · cases h
+      cases hmw : ctx.memberwise lhs cand with
+      | error e => simp only [hmw] at h; cases h
+      | panic p => simp only [hmw] at h; cases h
+      | ok mw =>
+        simp only [hmw] at h
+        unfold BCtx.castOrNest at h
+        simp only at h
+        cases hc : ctx.castNode (lhs.exprType ctx.env) cand with
+        | error e => simp only [hc] at h; cases h
+        | panic p => simp only [hc] at h; cases h
+        | ok r =>
+          obtain ⟨c?, w⟩ := r
+          simp only [hc] at h
+          cases hm : (if mw = true then none else c?) with
+          | some c => simp only [hm] at h; cases h
+          | none =>
+            simp only [hm] at h
+            refine ⟨?_, hslice, ?_⟩
+            · cases mw with
+              | true => exact Or.inr rfl
+              | false =>
+                simp only [Bool.false_eq_true, ↓reduceIte] at hm
+                subst hm
+                exact Or.inl ⟨w, rfl⟩
+            · intro hst
+              simp only [hst, ↓reduceIte] at h
+              cases hr : rec lhs cand with
+              | error e => simp only [hr] at h; cases h
+              | panic p => simp only [hr] at h; cases h
+              | ok body =>
+                simp only [hr] at h
+                split at h
+                · rename_i hemp
+                  have : body = [] := by simpa using hemp
+                  rw [this]
+                · cases h
 
 /-! ## the search over the candidates -/
 
